@@ -57,3 +57,13 @@ contract('lemma.C05_L4_sub_conjunct', params=dict(CTXP, s=SEL, t=SEL),
                    't.attributes == s.attributes', 't.lang == s.lang', 't.relation == s.relation', 't.contains == s.contains',
                    f'all_subs({CTX}, s.selectors, 1) == all_subs({CTX}, s.selectors[1:], 0)'],
          ensures=[f'sem_sel({CTX}, s) == (sem_list({CTX}, s.selectors[0]) and sem_sel({CTX}, t))'], properties=['C05'])
+
+# C04.O3: appending a correct (form, default button) pair keeps the memo table's invariant (base + step of the induction on i)
+from pyvc.types import TTup   # noqa: E402
+FC = TSeq(TTup(NODE, NODE))
+contract('lemma.C04_cache_snoc_base', params=dict(self=CSSMATCH, old=FC, f=NODE, b=NODE, i=INT), opaque_specs=['default_of'],
+         requires=['i == len(old)', 'f is not None', 'b is not None', 'same(default_of(self, f), b)'],
+         ensures=['default_cache_ok(self, old + [(f, b)], i)'], properties=['C04'])
+contract('lemma.C04_cache_snoc_step', params=dict(self=CSSMATCH, old=FC, f=NODE, b=NODE, i=INT), opaque_specs=['default_of'],
+         requires=['0 <= i < len(old)', 'default_cache_ok(self, old, i)', 'default_cache_ok(self, old + [(f, b)], i + 1)'],
+         ensures=['default_cache_ok(self, old + [(f, b)], i)'], properties=['C04'])
